@@ -21,7 +21,8 @@ REGISTRY = {}      # qualname -> Contract
 class Contract:
     def __init__(self, qualname, props, instances, requires=(), ensures=(), effects=(), raises=(), modifies=(),
                  loops=None, comps=None, returns=None, decreases=None, trusted=False, note="", canaries=(),
-                 call_when=None, pure=False, gen=None, may_raise=()):
+                 call_when=None, pure=False, gen=None, may_raise=(), taint=()):
+        self.taint = list(taint)                    # parameters standing for a symbolic weight (non-interference)
         self.may_raise = list(may_raise)            # exceptions the function may raise exactly as its base class does
         self.gen = gen                              # fold contract of a generator function
         self.qualname = qualname
@@ -418,6 +419,8 @@ def verify_instance(db, contracts, c, inst_index, max_paths=400, time_budget=120
     res["solver_time"] = round(eng.stats["solver_time"], 3)
     res["solver_calls"] = eng.stats["solver_calls"]
     res["vacuity"] = eng.stats["vacuity"]
+    res["vacuous_paths"] = eng.stats.get("vacuous_paths", 0)
+    res["bogus_sat"] = eng.stats.get("bogus_sat", 0)
     res["wall_s"] = round(time.time() - t0, 3)
     return res
 
@@ -448,6 +451,10 @@ def _run_path(eng, c, cl, inst, cls):
         if p not in env:
             raise Unsupported("instance gives no kind for parameter %s" % p)
     self_obj = env.get("self") if isinstance(env.get("self"), PObj) else None
+    for tn in c.taint:
+        tv = env.get(tn)
+        if isinstance(tv, SV) and z3.is_const(tv.e):
+            eng.taint.add(tv.e.decl().name())
     fr0 = Frame(cl, dict(env), self_obj, cls)
     snap = eng.snapshot(list(env.values()))
     eng.entry_alloc = getattr(eng, "nalloc", 0)
@@ -474,6 +481,11 @@ def _run_path(eng, c, cl, inst, cls):
         raised = e
     finally:
         eng.call_stack.pop()
+    if c.taint:
+        # C16: on this path the weight was used only in ring operations and zero tests, so the path taken and the
+        # polynomial form of every coefficient do not depend on its value
+        eng.oblige("%s/noninterference" % qn, not eng.taint_hits,
+                   note="; ".join(sorted(set(eng.taint_hits))[:5]) or "weight used only in +,-,*,/ and zero tests")
     if raised is not None and raised.name in c.may_raise:
         eng.oblige("%s/may_raise:%s" % (qn, raised.name), True)
         return
